@@ -44,20 +44,24 @@ type psWorld struct {
 	rng    *rand.Rand
 	idents map[string]ref.Identity
 	pin    string
+	seed   int64
 }
 
 type psConn struct {
-	c       *ref.Conn
-	dead    bool
-	salt, B []byte
-	srp     *ref.SRPClient // pending or accepted exchange
-	holds   bool           // the peer derived the key of an accepted proof on this connection
-	srpK    []byte
-	encKey  [32]byte
+	c             *ref.Conn
+	dead          bool
+	salt, B       []byte
+	srp           *ref.SRPClient // pending or accepted exchange
+	holds         bool           // the peer derived the key of an accepted proof on this connection
+	srpK          []byte
+	encKey        [32]byte
+	recA, recM1   []byte // A and proof of the last ACCEPTED verify on this connection, as sent
+	recM5         []byte // encrypted-data item of the last key exchange sent on this connection
+	sentA, sentM1 []byte
 }
 
 func newPSWorld(seed int64, k int, pin string) (*psWorld, error) {
-	w := &psWorld{rng: rngFor(seed, 2000+k), idents: map[string]ref.Identity{}, pin: pin}
+	w := &psWorld{rng: rngFor(seed, 2000+k), idents: map[string]ref.Identity{}, pin: pin, seed: seed}
 	dir := mkTempDir("hcv-ps")
 	sw := accessory.NewSwitch(accessory.Info{Name: "Setup"})
 	tr, err := startHTTPServer(dir, pin, sw.Accessory)
@@ -80,7 +84,13 @@ func (w *psWorld) ident(id string) ref.Identity {
 	}
 	// controller identifiers: 36-character form or arbitrary UTF-8 of 1..64 bytes
 	var name string
-	switch w.rng.Intn(3) {
+	switch w.rng.Intn(5) {
+	case 3:
+		// names that differ only by bytes a careless normalisation would drop or fold
+		base := "Admin-" + id
+		name = []string{base + "\x00", " " + base, base + " ", base + "\n", "\t" + base, strings.ToUpper(base), base + "\x00\x00", base + "\u00a0"}[w.rng.Intn(8)]
+	case 4:
+		name = string([]byte{byte(1 + w.rng.Intn(31))}) + id + string([]byte{0xc3, 0xa9})
 	case 0:
 		name = fmt.Sprintf("%08X-%04X-%04X-%04X-%012X", w.rng.Uint32(), w.rng.Intn(65536), w.rng.Intn(65536), w.rng.Intn(65536), w.rng.Int63n(1<<48))
 	case 1:
@@ -146,6 +156,17 @@ func (w *psWorld) build(conns map[string]*psConn, name string, cs *psConn, m psM
 		cs.srp = nil
 		var proof []byte
 		switch m.A {
+		case "replay":
+			// byte-for-byte replay of A and the proof accepted on another connection
+			for n, o := range conns {
+				if n != name && o.recA != nil {
+					t.Add(ref.TagPublicKey, o.recA)
+					proof = o.recM1
+				}
+			}
+			if proof == nil {
+				return nil, "no accepted exchange on another connection to replay"
+			}
 		case "good":
 			cl := ref.NewSRPClient("Pair-Setup", ref.FormatPin(w.pin), rndFunc(w.rng))
 			t.Add(ref.TagPublicKey, cl.Abytes)
@@ -168,6 +189,9 @@ func (w *psWorld) build(conns map[string]*psConn, name string, cs *psConn, m psM
 				proof = rnd(64) // no right proof exists for this A / without an M2
 			}
 			t.Add(ref.TagProof, proof)
+			if a, ok := t.Get(ref.TagPublicKey); ok {
+				cs.sentA, cs.sentM1 = a, proof
+			}
 		case "wrong":
 			cs.srp = nil
 			t.Add(ref.TagProof, rnd(64))
@@ -216,6 +240,17 @@ func (w *psWorld) build(conns map[string]*psConn, name string, cs *psConn, m psM
 			}
 		}
 		box := ref.Seal(key, []byte("PS-Msg05"), inner, nil)
+		if m.Seal == "other" && m.Body == "genuine" {
+			// prefer the very bytes another connection sent in its own key exchange
+			for n, o := range conns {
+				if n != name && o.recM5 != nil {
+					box = append([]byte{}, o.recM5...)
+				}
+			}
+		}
+		if m.Seal == "this" && m.Body == "genuine" && m.Shape == "ok" {
+			cs.recM5 = append([]byte{}, box...)
+		}
 		switch m.Shape {
 		case "ok":
 		case "tagflip":
@@ -236,6 +271,7 @@ func (w *psWorld) build(conns map[string]*psConn, name string, cs *psConn, m psM
 }
 
 func (w *psWorld) runWord(b Beh, tr *Tracer) error {
+	w.rng = rngFor(w.seed, 2000000+b.ID) // every random choice of a case depends on (seed, case id) only
 	w.baseline()
 	conns := map[string]*psConn{}
 	defer func() {
@@ -292,6 +328,7 @@ func (w *psWorld) runWord(b Beh, tr *Tracer) error {
 				case "Verify":
 					if p, ok := t.Get(ref.TagProof); ok && cs.srp != nil && cs.srp.VerifyM2(p) {
 						cs.holds = true
+						cs.recA, cs.recM1 = cs.sentA, cs.sentM1
 						cs.srpK = cs.srp.K
 						cs.encKey = ref.HKDF(cs.srp.K, []byte("Pair-Setup-Encrypt-Salt"), []byte("Pair-Setup-Encrypt-Info"))
 						o["holds"] = true
